@@ -118,6 +118,27 @@ def gen_ok(g):
     return None
 
 
+def _resolve_selects(v, depth=0):
+    """`conditional_select(a, b, choice)` is a when choice = 0 and b when choice = 1.  When the choice is a zero / identity
+    test of a drawn value it is 0 except with negligible probability, so the value IS a (which then has to carry the draw);
+    otherwise both alternatives count."""
+    from ..core.terms import mk_phi
+
+    if depth > 4:
+        return v
+    x = B.peel(v)
+    if x.op == "phi":
+        return mk_phi([_resolve_selects(y, depth + 1) for y in x.a[0]])
+    if x.op == "call" and B.cname(x) in ("ConditionallySelectable::conditional_select",) and len(x.a[1]) == 3:
+        a, b, c = x.a[1]
+        cc = B.peel(c)
+        negl = cc.op == "call" and B.cname(cc) in ("Field::is_zero", "Group::is_identity") and bool(draws(cc))
+        if negl:
+            return _resolve_selects(a, depth + 1)
+        return mk_phi([_resolve_selects(a, depth + 1), _resolve_selects(b, depth + 1)])
+    return v
+
+
 def check_origin(ctx, P, fk, what, value_of, need="fresh-or-param", inline_depth=3):
     f = ctx.need_fn("E6.origin", fk, P)
     if f is None:
@@ -129,6 +150,7 @@ def check_origin(ctx, P, fk, what, value_of, need="fresh-or-param", inline_depth
         return None
     v = inline(P, v, inline_depth, only=lambda g: g.key not in ("helpers::get_crypto_rng",) and not g.key.endswith("hash_to_scalar"))
     v = expand_closures(P, v)
+    v = _resolve_selects(v)
     alts = list(v.a[0]) if v.op == "phi" else [v]
     ok = True
     detail = []
